@@ -126,14 +126,19 @@ Qed.
 Lemma remove_nth_map {A B} (f : A -> B) : forall l i, remove_nth i (map f l) = map f (remove_nth i l).
 Proof. induction l as [|y l IH]; intros [|i]; cbn; auto. f_equal. apply IH. Qed.
 
+Lemma permute_S f r (l : list nat) : l <> [] ->
+  permute (S f) r l = nth (r mod length l) l 0 :: permute f (r / length l) (remove_nth (r mod length l) l).
+Proof. destruct l; [congruence|reflexivity]. Qed.
+
 Lemma permute_shift d : forall fuel r l,
   permute fuel r (map (Nat.add d) l) = map (Nat.add d) (permute fuel r l).
 Proof.
-  induction fuel as [|f IH]; intros r l; cbn [permute]; [reflexivity|].
+  induction fuel as [|f IH]; intros r l; [reflexivity|].
   destruct l as [|x l']; [reflexivity|].
-  set (l := x :: l'). change (map (Nat.add d) (x :: l')) with (map (Nat.add d) l).
+  set (l := x :: l').
   assert (Hn : length l <> 0) by (subst l; cbn; lia).
-  change (d + x :: map (Nat.add d) l') with (map (Nat.add d) l).
+  rewrite (permute_S f r l) by (subst l; discriminate).
+  rewrite permute_S by (subst l; discriminate).
   rewrite map_length. cbn [map]. f_equal.
   - rewrite (nth_indep _ 0 (d + 0)) by (rewrite map_length; apply Nat.mod_upper_bound; exact Hn).
     apply map_nth.
@@ -440,4 +445,206 @@ Proof.
 Qed.
 End Readers.
 
+
+(* ------------------------------------------------------------------ *)
+(* the simulation logic: [ok] of Inv.v plus the commutation equation    *)
+(* ------------------------------------------------------------------ *)
+Section Sim.
+Variable H : hier.
+Local Notation inv := (invb true).
+Local Notation sct := (Inv.sct true).
+Local Notation scv := (Inv.scv true).
+Local Notation noccb := (Inv.noccb true).
+Local Notation shv := (map (Nat.add dv)).
+Local Notation shks := (map (Nat.add dk)).
+
+(* [sim f sb m m' Q s]: m run in s ends in a store s' that satisfies the
+   invariant and extends sb (and Q on success), and m' run in [G s] ends the
+   same way, in [G s'], with the result mapped by f *)
+Definition sim {A} (f : A -> A) (sb : store) (m m' : M A) (Q : A -> store -> Prop) (s : store) : Prop :=
+  match m s with
+  | MOk a s' => inv s' /\ ext sb s' /\ Q a s' /\ m' (G s) = MOk (f a) (G s')
+  | MEr e s' => inv s' /\ ext sb s' /\ m' (G s) = MEr e (G s')
+  end.
+
+Lemma sim_ret {A} (f : A -> A) sb (a : A) (Q : A -> store -> Prop) s :
+  inv s -> ext sb s -> Q a s -> sim f sb (ret a) (ret (f a)) Q s.
+Proof. unfold sim, ret. auto. Qed.
+
+Lemma sim_fail {A} (f : A -> A) sb e (Q : A -> store -> Prop) s :
+  inv s -> ext sb s -> sim f sb (fail e) (fail e) Q s.
+Proof. unfold sim, fail. auto. Qed.
+
+Lemma sim_bind {A B} (fA : A -> A) (fB : B -> B) sb (m m' : M A) (k k' : A -> M B) Q1
+    (Q : B -> store -> Prop) s :
+  sim fA sb m m' Q1 s ->
+  (forall a s1, inv s1 -> ext sb s1 -> Q1 a s1 -> sim fB sb (k a) (k' (fA a)) Q s1) ->
+  sim fB sb (bindM m k) (bindM m' k') Q s.
+Proof.
+  unfold sim, bindM. destruct (m s) as [a s1|e s1].
+  - intros (I & E & HQ & ->) K. apply K; auto.
+  - intros (I & E & ->) K. auto.
+Qed.
+
+Lemma sim_bind_id {A B} (fB : B -> B) sb (m m' : M A) (k k' : A -> M B) Q1
+    (Q : B -> store -> Prop) s :
+  sim (fun x => x) sb m m' Q1 s ->
+  (forall a s1, inv s1 -> ext sb s1 -> Q1 a s1 -> sim fB sb (k a) (k' a) Q s1) ->
+  sim fB sb (bindM m k) (bindM m' k') Q s.
+Proof. intros M1 K. eapply sim_bind; [exact M1|exact K]. Qed.
+
+Lemma sim_conseq {A} (f : A -> A) sb (m m' : M A) (Q1 Q : A -> store -> Prop) s :
+  sim f sb m m' Q1 s -> (forall a s1, inv s1 -> ext sb s1 -> Q1 a s1 -> Q a s1) -> sim f sb m m' Q s.
+Proof.
+  unfold sim. destruct (m s) as [a s1|e s1]; [|auto]. intros (I & E & HQ & Eq) K. auto.
+Qed.
+
+Lemma sim_gets {A B} (fB : B -> B) sb (g g' : store -> A) (k k' : A -> M B) (Q : B -> store -> Prop) s :
+  sim fB sb (k (g s)) (k' (g' (G s))) Q s -> sim fB sb (bindM (gets g) k) (bindM (gets g') k') Q s.
+Proof. unfold sim, bindM, gets. auto. Qed.
+
+Lemma sim_gets_end {A} (f : A -> A) sb (g g' : store -> A) (Q : A -> store -> Prop) s :
+  inv s -> ext sb s -> Q (g s) s -> g' (G s) = f (g s) -> sim f sb (gets g) (gets g') Q s.
+Proof. unfold sim, gets. intros I E HQ ->. auto. Qed.
+
+Lemma sim_modify {B} (fB : B -> B) sb (g g' : store -> store) (k k' : unit -> M B) (Q : B -> store -> Prop) s :
+  g' (G s) = G (g s) -> sim fB sb (k tt) (k' tt) Q (g s) ->
+  sim fB sb (bindM (modify g) k) (bindM (modify g') k') Q s.
+Proof. unfold sim, bindM, modify. intros ->. auto. Qed.
+
+Lemma sim_modify_end sb (g g' : store -> store) (Q : unit -> store -> Prop) s :
+  g' (G s) = G (g s) -> inv (g s) -> ext sb (g s) -> Q tt (g s) ->
+  sim (fun x => x) sb (modify g) (modify g') Q s.
+Proof. unfold sim, modify. intros ->. auto. Qed.
+
+Lemma sim_lift {A B} (fA : A -> A) (fB : B -> B) sb (r r' : store -> res A) (k k' : A -> M B)
+    (Q : B -> store -> Prop) s :
+  inv s -> ext sb s -> r' (G s) = rmap fA (r s) ->
+  (forall a, r s = Ok a -> sim fB sb (k a) (k' (fA a)) Q s) ->
+  sim fB sb (bindM (lift r) k) (bindM (lift r') k') Q s.
+Proof.
+  unfold sim, bindM, lift. intros I E -> K. destruct (r s) as [a|e]; cbn [rmap].
+  - apply K. reflexivity.
+  - auto.
+Qed.
+
+Lemma rmap_id {A} (r : res A) : rmap (fun x => x) r = r.
+Proof. destruct r; reflexivity. Qed.
+
+Lemma sim_lift_id {A B} (fB : B -> B) sb (r r' : store -> res A) (k k' : A -> M B)
+    (Q : B -> store -> Prop) s :
+  inv s -> ext sb s -> r' (G s) = r s ->
+  (forall a, r s = Ok a -> sim fB sb (k a) (k' a) Q s) ->
+  sim fB sb (bindM (lift r) k) (bindM (lift r') k') Q s.
+Proof.
+  intros I E Er K. apply sim_lift with (fA := fun x => x); auto. rewrite rmap_id. exact Er.
+Qed.
+
+Lemma sim_lift_end {A} (fA : A -> A) sb (r r' : store -> res A) (Q : A -> store -> Prop) s :
+  inv s -> ext sb s -> r' (G s) = rmap fA (r s) ->
+  (forall a, r s = Ok a -> Q a s) -> sim fA sb (lift r) (lift r') Q s.
+Proof.
+  unfold sim, lift. intros I E -> K. destruct (r s) as [a|e]; cbn [rmap]; auto.
+Qed.
+
+Lemma sim_forM {A} (fx : A -> A) sb (J : store -> Prop) (f f' : A -> M unit) : forall l s,
+  inv s -> ext sb s -> J s ->
+  (forall x s1, In x l -> inv s1 -> ext sb s1 -> J s1 ->
+     sim (fun u => u) sb (f x) (f' (fx x)) (fun _ s2 => J s2) s1) ->
+  sim (fun u => u) sb (forM l f) (forM (map fx l) f') (fun _ s2 => J s2) s.
+Proof.
+  induction l as [|x l IH]; intros s I E HJ F; cbn [forM map].
+  - apply (sim_ret (fun u => u)); auto.
+  - eapply sim_bind_id; [apply F; cbn; auto|].
+    intros u s1 I1 E1 J1. apply IH; auto. intros y s2 Hy. apply F. cbn; auto.
+Qed.
+
+Lemma sim_use {A} (f : A -> A) sb (m m' : M A) (Q : A -> store -> Prop) s :
+  ext sb s -> sim f s m m' Q s -> sim f sb m m' (fun a s' => Q a s' /\ ext s s') s.
+Proof.
+  unfold sim. intros E. destruct (m s) as [a s1|e s1].
+  - intros (I1 & E1 & HQ & Eq). repeat split; auto. eapply ext_trans; eauto.
+  - intros (I1 & E1 & Eq). repeat split; auto. eapply ext_trans; eauto.
+Qed.
+
+Lemma sim_next_choice {B} (fB : B -> B) sb (k k' : nat -> M B) (Q : B -> store -> Prop) s :
+  inv s -> ext sb s ->
+  (forall r s1, inv s1 -> ext sb s1 -> ext s s1 -> vars s1 = vars s -> csets s1 = csets s ->
+                constrs s1 = constrs s -> sim fB sb (k r) (k' r) Q s1) ->
+  sim fB sb (bindM next_choice k) (bindM next_choice k') Q s.
+Proof.
+  intros I E K. unfold sim, bindM, next_choice. rewrite sched_G. destruct (sched s) as [|r rest].
+  - apply K; auto using ext_refl.
+  - rewrite G_sched. apply K; auto using inv_sched, ext_sched. eapply ext_trans; eauto using ext_sched.
+Qed.
+
+Lemma sim_upd_cell {B} (fB : B -> B) sb v g g' (k k' : unit -> M B) (Q : B -> store -> Prop) s :
+  inv s -> ext sb s -> (forall c, c_bound (g c) = c_bound c) -> (forall c, c_cs (g c) = c_cs c) ->
+  c_lower (g (cell_of s v)) <> Some Top -> c_upper (g (cell_of s v)) <> Some Bottom ->
+  (forall c, g' (shc c) = shc (g c)) ->
+  (forall s1, s1 = set_cell s v (g (cell_of s v)) -> inv s1 -> ext sb s1 -> ext s s1 ->
+              sim fB sb (k tt) (k' tt) Q s1) ->
+  sim fB sb (bindM (upd_cell v g) k) (bindM (upd_cell (dv + v) g') k') Q s.
+Proof.
+  intros I E Hb Hc Hl Hu Hg K. unfold upd_cell. apply sim_modify; [apply upd_cell_G; exact Hg|].
+  assert (E1 : ext s (set_cell s v (g (cell_of s v)))).
+  { apply ext_set_cell. intros t. rewrite Hb. auto. }
+  apply K; auto.
+  - apply inv_set_cell; auto.
+    + intros t. rewrite Hb. apply sct_of_bound. exact I.
+    + intros Bt L. rewrite Hc. apply (sc_cs (proj2 I Bt)). exact L.
+  - eapply ext_trans; [exact E|exact E1].
+Qed.
+
+Lemma sim_set_cs {B} (fB : B -> B) sb v i (k k' : unit -> M B) (Q : B -> store -> Prop) s :
+  inv s -> ext sb s -> i < length (csets s) ->
+  (forall s1, inv s1 -> ext sb s1 -> ext s s1 -> sim fB sb (k tt) (k' tt) Q s1) ->
+  sim fB sb (bindM (set_cs v i) k) (bindM (set_cs (dv + v) (dc + i)) k') Q s.
+Proof.
+  intros I E Hi K. unfold set_cs, upd_cell. apply sim_modify; [apply upd_cell_G; reflexivity|].
+  assert (E1 : ext s (set_cell s v (mkCell (c_wild (cell_of s v)) (c_bound (cell_of s v))
+                 (c_lower (cell_of s v)) (c_upper (cell_of s v)) i))).
+  { apply ext_set_cell. cbn. auto. }
+  apply K; auto using inv_set_cs. eapply ext_trans; eauto.
+Qed.
+
+Lemma sim_set_cs_end sb v i (Q : unit -> store -> Prop) s :
+  inv s -> ext sb s -> i < length (csets s) ->
+  (forall s1, inv s1 -> ext sb s1 -> ext s s1 -> Q tt s1) ->
+  sim (fun u => u) sb (set_cs v i) (set_cs (dv + v) (dc + i)) Q s.
+Proof.
+  intros I E Hi K. unfold set_cs, upd_cell.
+  assert (E1 : ext s (set_cell s v (mkCell (c_wild (cell_of s v)) (c_bound (cell_of s v))
+                 (c_lower (cell_of s v)) (c_upper (cell_of s v)) i))).
+  { apply ext_set_cell. cbn. auto. }
+  apply sim_modify_end; [apply upd_cell_G; reflexivity|auto using inv_set_cs| |].
+  - eapply ext_trans; eauto.
+  - apply K; auto using inv_set_cs. eapply ext_trans; eauto.
+Qed.
+
+Lemma sim_fresh {B} (fB : B -> B) sb w (k k' : nat -> M B) (Q : B -> store -> Prop) s :
+  inv s -> ext sb s ->
+  (forall s1, s1 = snd (alloc_var s w) -> inv s1 -> ext sb s1 -> ext s s1 ->
+              sim fB sb (k (length (vars s))) (k' (dv + length (vars s))) Q s1) ->
+  sim fB sb (bindM (fresh w) k) (bindM (fresh w) k') Q s.
+Proof.
+  intros I E K. unfold sim, bindM, fresh. rewrite alloc_var_G. cbn [alloc_var].
+  apply (K (snd (alloc_var s w))); auto using inv_alloc_var, ext_alloc_var.
+  eapply ext_trans; [exact E|apply ext_alloc_var].
+Qed.
+
+Lemma sim_alloc_constr {B} (fB : B -> B) sb k (K K' : nat -> M B) (Q : B -> store -> Prop) s :
+  inv s -> ext sb s -> (k_elim k = false -> length (k_alts k) = 1) ->
+  Forall (sct s) (constr_terms k) ->
+  (forall s1, s1 = snd (alloc_constr s k) -> inv s1 -> ext sb s1 -> ext s s1 ->
+              sim fB sb (K (length (constrs s))) (K' (dk + length (constrs s))) Q s1) ->
+  sim fB sb (bindM (fun s => let (c, s') := alloc_constr s k in MOk c s') K)
+            (bindM (fun s => let (c, s') := alloc_constr s (shk k) in MOk c s') K') Q s.
+Proof.
+  intros I E A Sk HK. unfold sim, bindM. rewrite alloc_constr_G. cbn [alloc_constr].
+  apply (HK (snd (alloc_constr s k))); auto using inv_alloc_constr, ext_alloc_constr.
+  eapply ext_trans; [exact E|apply ext_alloc_constr].
+Qed.
+
+End Sim.
 End Frame.
